@@ -1210,5 +1210,817 @@ theorem protocol_gen_tasks (Y : YieldFn) (F : BodyFn) (s : Sess) (g : Nat) (G : 
   rw [htasks]
   exact List.mem_append.2 (Or.inr hk)
 
+/-! ## Converse graph facts: where the edges of the graph come from -/
+
+theorem foldl_addEdge_conv {α} (mk : α → Nat × Nat) : ∀ (xs : List α) (g : G) (e : Nat × Nat),
+    e ∈ (xs.foldl (fun g y => g.addEdge (mk y).1 (mk y).2) g).edges → e ∈ g.edges ∨ ∃ x ∈ xs, e = mk x
+  | [], g, e, h => Or.inl h
+  | y :: ys, g, e, h => by
+    simp only [List.foldl_cons] at h
+    rcases foldl_addEdge_conv mk ys _ e h with h1 | ⟨x, hx, rfl⟩
+    · rcases mem_addEdge_edges.1 h1 with h2 | h2
+      · exact Or.inl h2
+      · exact Or.inr ⟨y, by simp, h2⟩
+    · exact Or.inr ⟨x, by simp [hx], rfl⟩
+
+theorem baseStep_conv (g : G) (t : TaskSpec) (e : Nat × Nat) (h : e ∈ (baseStep g t).edges) :
+    e ∈ g.edges ∨ (∃ d ∈ t.deps, e = (nv d, tv t.id)) ∨ (∃ p ∈ t.prods, e = (tv t.id, nv p)) := by
+  unfold baseStep at h
+  rcases foldl_addEdge_conv (fun p => (tv t.id, nv p)) t.prods _ e h with h1 | h1
+  · rcases foldl_addEdge_conv (fun d => (nv d, tv t.id)) t.deps _ e h1 with h2 | h2
+    · left; simpa using h2
+    · right; left; exact h2
+  · right; right; exact h1
+
+theorem baseGraph_conv (P : Project) (e : Nat × Nat) (h : e ∈ (baseGraph P).edges) :
+    ∃ t ∈ P.tasks, (∃ d ∈ t.deps, e = (nv d, tv t.id)) ∨ (∃ p ∈ t.prods, e = (tv t.id, nv p)) := by
+  rw [baseGraph_eq] at h
+  have key : ∀ (ts : List TaskSpec) (g : G), e ∈ (ts.foldl baseStep g).edges →
+      e ∈ g.edges ∨ ∃ t ∈ ts, (∃ d ∈ t.deps, e = (nv d, tv t.id)) ∨ (∃ p ∈ t.prods, e = (tv t.id, nv p)) := by
+    intro ts
+    induction ts with
+    | nil => intro g h; exact Or.inl h
+    | cons x xs ih =>
+      intro g h
+      simp only [List.foldl_cons] at h
+      rcases ih _ h with h1 | ⟨t, ht, h2⟩
+      · rcases baseStep_conv g x e h1 with h3 | h3
+        · exact Or.inl h3
+        · exact Or.inr ⟨x, by simp, h3⟩
+      · exact Or.inr ⟨t, by simp [ht], h2⟩
+  rcases key P.tasks G.empty h with h1 | h1
+  · cases h1
+  · exact h1
+
+theorem isTaskV_tv (a : Nat) : isTaskV (tv a) = true := by unfold isTaskV tv; simp
+theorem isTaskV_nv (a : Nat) : isTaskV (nv a) = false := by unfold isTaskV nv; simp
+theorem tv_ne_nv (a b : Nat) : tv a ≠ nv b := by unfold tv nv; omega
+
+/-- Every edge joins a task vertex and a node vertex. -/
+def Bip (g : G) : Prop := ∀ e ∈ g.edges, isTaskV e.1 ≠ isTaskV e.2
+
+/-- `_modify_dag` only adds edges from a node (a product of the `after` target) to a task declaring `after`. -/
+theorem modifyDag_conv (P : Project) (g : G) (hb : Bip g) (e : Nat × Nat) (h : e ∈ (modifyDag P g).edges) :
+    e ∈ g.edges ∨ ∃ u ∈ P.tasks, u.after ≠ [] ∧ e.2 = tv u.id ∧ isTaskV e.1 = false := by
+  unfold modifyDag at h
+  have succ_step : ∀ (t : TaskSpec) (o : Nat) (g : G), Bip g →
+      Bip ((g.succs (tv o)).foldl (fun g s => g.addEdge s (tv t.id)) g) ∧
+      ∀ e ∈ ((g.succs (tv o)).foldl (fun g s => g.addEdge s (tv t.id)) g).edges,
+        e ∈ g.edges ∨ (e.2 = tv t.id ∧ isTaskV e.1 = false) := by
+    intro t o g hb
+    have hconv : ∀ e ∈ ((g.succs (tv o)).foldl (fun g s => g.addEdge s (tv t.id)) g).edges,
+        e ∈ g.edges ∨ (e.2 = tv t.id ∧ isTaskV e.1 = false) := by
+      intro e he
+      rcases foldl_addEdge_conv (fun s => (s, tv t.id)) _ g e he with h2 | ⟨s, hs, rfl⟩
+      · exact Or.inl h2
+      · have hedge := mem_succs.1 hs
+        have := hb _ hedge
+        simp only [isTaskV_tv] at this
+        refine Or.inr ⟨rfl, ?_⟩
+        cases hx : isTaskV s with
+        | false => rfl
+        | true => rw [hx] at this; exact absurd rfl this
+    refine ⟨fun e he => ?_, hconv⟩
+    rcases hconv e he with h1 | ⟨h1, h2⟩
+    · exact hb e h1
+    · rw [h1, h2, isTaskV_tv]; simp
+  have inner : ∀ (t : TaskSpec) (os : List Nat) (g : G), Bip g →
+      Bip (os.foldl (fun g o => if o == t.id then g else (g.succs (tv o)).foldl (fun g s => g.addEdge s (tv t.id)) g) g) ∧
+      ∀ e ∈ (os.foldl (fun g o => if o == t.id then g else (g.succs (tv o)).foldl (fun g s => g.addEdge s (tv t.id)) g) g).edges,
+        e ∈ g.edges ∨ (os ≠ [] ∧ e.2 = tv t.id ∧ isTaskV e.1 = false) := by
+    intro t os
+    induction os with
+    | nil => intro g hb; exact ⟨hb, fun e h => Or.inl h⟩
+    | cons o os ih =>
+      intro g hb
+      simp only [List.foldl_cons]
+      by_cases ho : (o == t.id) = true
+      · simp only [ho, if_true]
+        obtain ⟨b1, c1⟩ := ih g hb
+        exact ⟨b1, fun e he => (c1 e he).imp id (fun h => ⟨by simp, h.2⟩)⟩
+      · simp only [ho, Bool.false_eq_true, if_false]
+        obtain ⟨b0, c0⟩ := succ_step t o g hb
+        obtain ⟨b1, c1⟩ := ih _ b0
+        refine ⟨b1, fun e he => ?_⟩
+        rcases c1 e he with h1 | h1
+        · rcases c0 e h1 with h2 | h2
+          · exact Or.inl h2
+          · exact Or.inr ⟨by simp, h2⟩
+        · exact Or.inr ⟨by simp, h1.2⟩
+  have outer : ∀ (ts : List TaskSpec) (g : G), Bip g →
+      ∀ e ∈ (ts.foldl (fun g t => t.after.foldl (fun g o => if o == t.id then g else
+          (g.succs (tv o)).foldl (fun g s => g.addEdge s (tv t.id)) g) g) g).edges,
+      e ∈ g.edges ∨ ∃ u ∈ ts, u.after ≠ [] ∧ e.2 = tv u.id ∧ isTaskV e.1 = false := by
+    intro ts
+    induction ts with
+    | nil => intro g _ e h; exact Or.inl h
+    | cons x xs ih =>
+      intro g hb e h
+      simp only [List.foldl_cons] at h
+      obtain ⟨b0, c0⟩ := inner x x.after g hb
+      rcases ih _ b0 e h with h1 | ⟨u, hu, h2⟩
+      · rcases c0 e h1 with h3 | h3
+        · exact Or.inl h3
+        · exact Or.inr ⟨x, by simp, h3⟩
+      · exact Or.inr ⟨u, by simp [hu], h2⟩
+  exact outer P.tasks g hb e h
+
+theorem baseGraph_bip (P : Project) : Bip (baseGraph P) := by
+  intro e he
+  obtain ⟨t, _, hor⟩ := baseGraph_conv P e he
+  rcases hor with ⟨d, _, rfl⟩ | ⟨p, _, rfl⟩
+  · simp [isTaskV_tv, isTaskV_nv]
+  · simp [isTaskV_tv, isTaskV_nv]
+
+/-- Predecessors and successors of a task vertex in the graph of `create_dag_from_session`: the declared dependencies
+(and, for a task with `after`, whatever `_modify_dag` added) — resp. exactly the declared products — of tasks with that id. -/
+theorem createDag_neighbours_conv {ts : List PTask} {g : G} {m : List Nat} (h : createDag (toProject ts) {} = .ok (g, m)) (t : Nat) :
+    (∀ x, x ∈ g.preds (tv t) → (∃ u ∈ ts, u.id = t ∧ ∃ d ∈ u.allDeps, x = nv d) ∨ (∃ u ∈ ts, u.id = t ∧ u.after ≠ [])) ∧
+    (∀ x, x ∈ g.succs (tv t) → ∃ u ∈ ts, u.id = t ∧ ∃ p ∈ u.allProds, x = nv p) := by
+  obtain ⟨rfl, _⟩ := createDag_ok h
+  have base : ∀ e, e ∈ (baseGraph (toProject ts)).edges →
+      ∃ u ∈ ts, (∃ d ∈ u.allDeps, e = (nv d, tv u.id)) ∨ (∃ p ∈ u.allProds, e = (tv u.id, nv p)) := by
+    intro e he
+    obtain ⟨sp, hsp, hor⟩ := baseGraph_conv _ e he
+    obtain ⟨u, hu, rfl⟩ := List.mem_map.1 hsp
+    exact ⟨u, hu, hor⟩
+  constructor
+  · intro x hx
+    have he := mem_preds.1 hx
+    rcases modifyDag_conv _ _ (baseGraph_bip _) _ he with h1 | ⟨sp, hsp, ha, h2, _⟩
+    · obtain ⟨u, hu, hor⟩ := base _ h1
+      rcases hor with ⟨d, hd, heq⟩ | ⟨p, hp, heq⟩
+      · simp only [Prod.mk.injEq] at heq
+        exact Or.inl ⟨u, hu, (tv_inj' heq.2).symm, d, hd, heq.1⟩
+      · simp only [Prod.mk.injEq] at heq
+        exact absurd heq.2 (tv_ne_nv _ _)
+    · obtain ⟨u, hu, rfl⟩ := List.mem_map.1 hsp
+      exact Or.inr ⟨u, hu, (tv_inj' h2).symm, ha⟩
+  · intro x hx
+    have he := mem_succs.1 hx
+    rcases modifyDag_conv _ _ (baseGraph_bip _) _ he with h1 | ⟨sp, hsp, _, _, h3⟩
+    · obtain ⟨u, hu, hor⟩ := base _ h1
+      rcases hor with ⟨d, hd, heq⟩ | ⟨p, hp, heq⟩
+      · simp only [Prod.mk.injEq] at heq
+        exact absurd heq.1 (tv_ne_nv _ _)
+      · simp only [Prod.mk.injEq] at heq
+        exact ⟨u, hu, (tv_inj' heq.1).symm, p, hp, heq.2⟩
+    · simp only [isTaskV_tv] at h3
+      cases h3
+
+theorem scanP_not_missing (P : Project) (g : G) (w : World) (pn : List Nat) (t : Nat) :
+    ∀ (vs : List Nat) (needs : Bool),
+      (∀ v ∈ vs, ((g.preds (tv t)).contains v || v == tv t) = true → (stateOf P w v).isSome = true) →
+      scanP P g w pn t needs vs ≠ Scan.missing
+  | [], needs, _ => by unfold scanP; split <;> simp
+  | v :: vs, needs, h => by
+    have hrec := fun n => scanP_not_missing P g w pn t vs n (fun u hu => h u (List.mem_cons_of_mem _ hu))
+    unfold scanP
+    simp only []
+    split
+    · simp
+    · split
+      · exact hrec _
+      · split
+        · rename_i hm
+          simp only [Bool.and_eq_true] at hm
+          have := h v (by simp) hm.1
+          rw [Option.isNone_iff_eq_none] at hm
+          rw [hm.2] at this; cases this
+        · split
+          · exact hrec _
+          · exact hrec _
+
+theorem scan_cases (sc : Scan) (h1 : sc ≠ .unchanged) (h2 : sc ≠ .missing) : sc = .changed := by
+  cases sc <;> simp_all
+
+theorem mem_setTask {ts : List PTask} {tk' u : PTask} (h : u ∈ setTask ts tk') : u = tk' ∨ (u ∈ ts ∧ u.id ≠ tk'.id) := by
+  unfold setTask at h
+  obtain ⟨x, hx, rfl⟩ := List.mem_map.1 h
+  by_cases he : (x.id == tk'.id) = true
+  · left; simp [he]
+  · right; simp only [he, Bool.false_eq_true, if_false]; exact ⟨hx, by simpa using he⟩
+
+theorem project_find_of_findTask {ts : List PTask} {t : Nat} {tk : PTask} (h : findTask ts t = some tk) :
+    Project.find? (toProject ts) t = some (toSpec tk) := by
+  unfold Project.find? toProject findTask at *
+  simp only []
+  induction ts with
+  | nil => simp at h
+  | cons x xs ih =>
+    simp only [List.map_cons, List.find?_cons] at h ⊢
+    have : (toSpec x).id = x.id := rfl
+    rw [this]
+    cases hx : (x.id == t)
+    · rw [hx] at h; exact ih h
+    · rw [hx] at h; simp only [Option.some.injEq] at h; rw [h]
+
+theorem stateOf_tv {ts : List PTask} {t : Nat} {tk : PTask} (w : World) (h : findTask ts t = some tk) :
+    stateOf (toProject ts) w (tv t) = lookup w.fs tk.src := by
+  unfold stateOf
+  have h2 : tv t / 2 = t := by unfold tv; omega
+  simp only [isTaskV_tv, if_true, h2, project_find_of_findTask h]
+  rfl
+
+/-- If the change scan answers "changed", the task function is called (whatever it then does). -/
+theorem runPhases_changed (Y : YieldFn) (F : BodyFn) (s : Sess) (t : Nat) (tk : PTask)
+    (hf : findTask s.tasks t = some tk) (hng : tk.gen = false) (hfm : t ∉ s.failMarks)
+    (hscan : scanP (toProject (setupProvisional s t).tasks) (setupProvisional s t).g (setupProvisional s t).w
+        (provNodes (setupProvisional s t).tasks) t false (neighbours (setupProvisional s t).g t) = Scan.changed) :
+    (runPhases Y F s t).1.log = s.log ++ [t] := by
+  have hsp := setupProvisional_spec s t tk hf
+  have hgen : (resolvedDeps s.w.fs tk).gen = false := by unfold resolvedDeps; split <;> exact hng
+  have hid : (resolvedDeps s.w.fs tk).id = t := findTask_id hsp.2
+  unfold runPhases
+  rw [setupChain_eval]
+  have hfm' : (setupProvisional s t).failMarks.contains t = false := by
+    rw [hsp.1.2.2.2.1]; simpa using hfm
+  simp only [hfm', Bool.false_eq_true, if_false]
+  have hse : setupExecute (setupProvisional s t) t = (setupProvisional s t, Raised.none) := by
+    unfold setupExecute
+    rw [hsp.2]
+    simp only [hgen, Bool.false_eq_true, if_false, hscan]
+  rw [hse]
+  simp only []
+  rw [execChain_eval, hsp.2]
+  simp only [hgen, Bool.false_eq_true, if_false]
+  cases hb : (runBody F (resolvedDeps s.w.fs tk) (setupProvisional s t).w.fs).2 with
+  | true => simp [invoke, hid, hsp.1.2.1]
+  | false =>
+    simp only []
+    have htd := teardown_sameObs ({ invoke (setupProvisional s t) (resolvedDeps s.w.fs tk) with
+      w := { (setupProvisional s t).w with fs := (runBody F (resolvedDeps s.w.fs tk) (setupProvisional s t).w.fs).1 } }) t
+    rw [htd.2.1]
+    simp [invoke, hid, hsp.1.2.1]
+
+theorem setupProvisional_tasks (s : Sess) (t : Nat) (tk : PTask) (hf : findTask s.tasks t = some tk)
+    (hu : unresolved tk.pdeps = true) :
+    (setupProvisional s t).tasks = setTask s.tasks (resolvedDeps s.w.fs tk) := by
+  unfold setupProvisional resolvedDeps
+  rw [hf]
+  simp only [hu, if_true, addTwp_contains]
+  rw [(recreate_frame _ t).1]
+
+/-- After the resolution, with all pattern dependencies fresh, every declared dependency of the task record exists if the
+non-pattern dependencies do (matched files exist by definition of matching). -/
+theorem resolvedDeps_allDeps_exist (fs : FS) (tk : PTask) (hun : ∀ sl ∈ tk.pdeps, sl.res = none)
+    (hdeps : ∀ d ∈ tk.cnt.toList ++ tk.deps, (lookup fs d).isSome = true) :
+    ∀ d ∈ (resolvedDeps fs tk).allDeps, (lookup fs d).isSome = true := by
+  intro d hd
+  unfold resolvedDeps at hd
+  by_cases hu : unresolved tk.pdeps = true
+  · simp only [hu, if_true, PTask.allDeps] at hd
+    rcases List.mem_append.1 hd with h1 | h1
+    · exact hdeps d h1
+    · obtain ⟨sl', hsl', hdn⟩ := List.mem_flatMap.1 h1
+      obtain ⟨sl, hsl, rfl⟩ := List.mem_map.1 hsl'
+      have := hun sl hsl
+      unfold Slot.resolve Slot.nodes at hdn
+      rw [this] at hdn
+      simp only [] at hdn
+      exact (mem_glob.1 hdn).2.2
+  · simp only [hu, Bool.false_eq_true, if_false, PTask.allDeps] at hd
+    rcases List.mem_append.1 hd with h1 | h1
+    · exact hdeps d h1
+    · obtain ⟨sl, hsl, hdn⟩ := List.mem_flatMap.1 h1
+      have hnone := hun sl hsl
+      exfalso
+      unfold unresolved at hu
+      simp only [List.any_eq_true, not_exists, not_and, Bool.not_eq_true] at hu
+      have := hu sl hsl
+      rw [hnone] at this; simp at this
+
+/-- Re-assembling an accepted pick list: an accepted pick followed by an accepted rest. -/
+theorem loop_cons_ok {Y : YieldFn} {F : BodyFn} {s s' : Sess} {t : Nat} {ts : List Nat}
+    (h1 : s.stop = false) (h2 : s.crashed = false) (h3 : LegalBatch s.so 1 [tv t]) (h4 : (findTask s.tasks t).isSome)
+    (h5 : loop Y F (stepOf Y F s t) ts = .ok s') : loop Y F s (t :: ts) = .ok s' := by
+  have hl : legalBatchB s.so 1 [tv t] = true := (legalBatchB_iff _ _ _).2 h3
+  have hact : s.so.isActive = true := by
+    have := (mem_avail.1 (h3.2.1 (tv t) (by simp))).1
+    unfold isActive
+    cases hn : s.so.nodes with
+    | nil => rw [hn] at this; cases this
+    | cons a as => rfl
+  unfold loop
+  rw [if_neg (by simp [h1, h2, hact]), if_neg (by simp [hl])]
+  cases hf : findTask s.tasks t with
+  | none => rw [hf] at h4; cases h4
+  | some x => exact h5
+
+theorem loop_append_ok {Y : YieldFn} {F : BodyFn} : ∀ (p q : List Nat) (a b c : Sess),
+    loop Y F a p = .ok b → loop Y F b q = .ok c → loop Y F a (p ++ q) = .ok c
+  | [], q, a, b, c, hab, hbc => by
+    simp only [loop, Except.ok.injEq] at hab; subst hab; exact hbc
+  | x :: xs, q, a, b, c, hab, hbc => by
+    obtain ⟨c1, c2, c3, c4, c5⟩ := loop_cons hab
+    exact loop_cons_ok c1 c2 c3 c4 (loop_append_ok xs q _ b c c5 hbc)
+
+/-- Every entry of the received-lists log was written by one accepted pick: by the body of task `t`, handed out in the state
+`sm` reached after a prefix of the picks, on the task record left by the resolution of `t`'s pattern dependencies in the
+world of `sm`. -/
+theorem loop_recv {Y : YieldFn} {F : BodyFn} : ∀ (picks : List Nat) (s s' : Sess), loop Y F s picks = .ok s' →
+    ∀ e ∈ s'.recv, e ∈ s.recv ∨ ∃ pre t post sm tk, picks = pre ++ t :: post ∧ loop Y F s pre = .ok sm ∧
+      findTask sm.tasks t = some tk ∧
+      e = ⟨t, received (resolvedDeps sm.w.fs tk), seenBy (resolvedDeps sm.w.fs tk) sm.w.fs⟩
+  | [], s, s', h, e, he => by
+    simp only [loop, Except.ok.injEq] at h; subst h; exact Or.inl he
+  | t :: ts, s, s', h, e, he => by
+    obtain ⟨c1, c2, c3, c4, c5⟩ := loop_cons h
+    rcases loop_recv ts _ s' c5 e he with h1 | ⟨pre, t', post, sm, tk, hp, hl, hf, heq⟩
+    · cases hft : findTask s.tasks t with
+      | none => rw [hft] at c4; cases c4
+      | some tk =>
+        have hobs := protocol_obs Y F { s with so := s.so.take [tv t] } t tk hft
+        have hrecv : (stepOf Y F s t).recv = (protocol Y F { s with so := s.so.take [tv t] } t).recv := rfl
+        rw [hrecv] at h1
+        rcases hobs with ho | ho
+        · rw [ho.2.1] at h1; exact Or.inl h1
+        · rw [ho.2.1] at h1
+          rcases List.mem_append.1 h1 with h2 | h2
+          · exact Or.inl h2
+          · right
+            simp only [List.mem_singleton] at h2
+            exact ⟨[], t, ts, s, tk, rfl, rfl, hft, h2⟩
+    · right
+      exact ⟨t :: pre, t', post, sm, tk, by rw [hp]; rfl, loop_cons_ok c1 c2 c3 c4 hl, hf, heq⟩
+
+theorem initSess_empty {ts : List PTask} {w : World} {s0 : Sess} (h : initSess ts w = some s0) :
+    s0.recv = [] ∧ s0.log = [] ∧ s0.reports = [] ∧ s0.w = w ∧ s0.tasks = ts ∧ s0.failMarks = [] := by
+  unfold initSess at h
+  split at h
+  · cases h
+  · split at h
+    · cases h
+    · cases h; exact ⟨rfl, rfl, rfl, rfl, rfl, rfl⟩
+
+/-! ## The database: what a successful task records, and that nobody else touches its rows -/
+
+abbrev Key := Nat × Nat
+
+theorem lookup_insert_self (m : List (Key × Nat)) (k : Key) (v : Nat) : lookup (Engine.insert m k v) k = some v := by
+  unfold lookup Engine.insert
+  simp
+
+theorem lookup_insert_ne (m : List (Key × Nat)) (k k' : Key) (v : Nat) (h : k' ≠ k) :
+    lookup (Engine.insert m k v) k' = lookup m k' := by
+  unfold lookup Engine.insert
+  have h1 : (k == k') = false := by simpa using fun e => h e.symm
+  simp only [List.find?_cons, h1]
+  congr 1
+  induction m with
+  | nil => rfl
+  | cons x xs ih =>
+    simp only [List.filter_cons, List.find?_cons]
+    by_cases hx : (x.1 == k) = true
+    · have hxk : x.1 = k := by simpa using hx
+      have : (x.1 == k') = false := by rw [hxk]; exact h1
+      simp only [hx, Bool.not_true, Bool.false_eq_true, if_false, this]
+      exact ih
+    · simp only [hx, Bool.not_false, if_true, List.find?_cons]
+      cases hxk : (x.1 == k')
+      · exact ih
+      · rfl
+
+theorem stateOf_congr_fs (P : Project) (w w' : World) (h : w'.fs = w.fs) (v : Nat) : stateOf P w' v = stateOf P w v := by
+  unfold stateOf; rw [h]
+
+/-- `update_states_in_database` when it succeeds: one row per neighbour holding its current state; other rows untouched. -/
+theorem updateStates_spec (P : Project) (g : G) (t : Nat) : ∀ (vs : List Nat) (w : World),
+    (updateStates P g w t vs).2 = true →
+    (∀ v ∈ vs, ∃ h, stateOf P w v = some h ∧ lookup (updateStates P g w t vs).1.db (tv t, v) = some h) ∧
+    (∀ key : Key, (key.1 ≠ tv t ∨ key.2 ∉ vs) → lookup (updateStates P g w t vs).1.db key = lookup w.db key)
+  | [], w, _ => ⟨fun _ h => (by cases h), fun _ _ => rfl⟩
+  | v :: vs, w, hok => by
+    unfold updateStates at hok ⊢
+    cases hs : stateOf P w v with
+    | none => rw [hs] at hok; simp at hok
+    | some h =>
+      rw [hs] at hok
+      simp only [] at hok ⊢
+      have ih := updateStates_spec P g t vs { w with db := Engine.insert w.db (tv t, v) h } hok
+      have hst : ∀ x, stateOf P { w with db := Engine.insert w.db (tv t, v) h } x = stateOf P w x :=
+        fun x => stateOf_congr_fs P w _ rfl x
+      refine ⟨fun x hx => ?_, fun key hkey => ?_⟩
+      · by_cases hxv : x ∈ vs
+        · obtain ⟨h', e1, e2⟩ := ih.1 x hxv
+          exact ⟨h', by rw [← hst x]; exact e1, e2⟩
+        · have hxe : x = v := by
+            rcases List.mem_cons.1 hx with e | e
+            · exact e
+            · exact absurd e hxv
+          subst hxe
+          refine ⟨h, hs, ?_⟩
+          rw [ih.2 (tv t, x) (Or.inr hxv)]
+          exact lookup_insert_self _ _ _
+      · have hk2 : key.1 ≠ tv t ∨ key.2 ∉ vs := by
+          rcases hkey with e | e
+          · exact Or.inl e
+          · exact Or.inr (fun hin => e (List.mem_cons_of_mem _ hin))
+        rw [ih.2 key hk2]
+        apply lookup_insert_ne
+        intro e
+        rcases hkey with e' | e'
+        · exact e' (by rw [e])
+        · exact e' (by rw [e]; simp)
+
+/-- `TASKS_WITH_PROVISIONAL_NODES` only ever gains the task whose protocol is running. -/
+def TwpExt (t : Nat) (s s' : Sess) : Prop := ∀ u ∈ s'.twp, u ∈ s.twp ∨ u = t
+
+theorem TwpExt.refl (t : Nat) (s : Sess) : TwpExt t s s := fun _ h => Or.inl h
+theorem TwpExt.trans {t : Nat} {a b c : Sess} (h1 : TwpExt t a b) (h2 : TwpExt t b c) : TwpExt t a c := fun u hu => by
+  rcases h2 u hu with h | h
+  · exact h1 u h
+  · exact Or.inr h
+theorem TwpExt.of_eq {t : Nat} {s s' : Sess} (h : s'.twp = s.twp) : TwpExt t s s' := fun u hu => Or.inl (h ▸ hu)
+
+theorem mem_addTwp {twp : List Nat} {t u : Nat} (h : u ∈ addTwp twp t) : u ∈ twp ∨ u = t := by
+  unfold addTwp at h
+  split at h
+  · exact Or.inl h
+  · simpa using h
+
+theorem setupProvisional_twp (s : Sess) (t : Nat) : TwpExt t s (setupProvisional s t) := by
+  unfold setupProvisional
+  split
+  · exact TwpExt.refl t s
+  · simp only []
+    split <;> split <;> (try rw [TwpExt, (recreate_frame _ t).2.2.2.2.2.2.1]) <;>
+      first | exact fun u hu => mem_addTwp hu | exact TwpExt.refl t s
+
+theorem collectProducts_twp (s : Sess) (t : Nat) : TwpExt t s (collectProducts s t) := by
+  unfold collectProducts
+  split
+  · exact TwpExt.refl t s
+  · simp only []
+    split
+    · exact TwpExt.refl t s
+    · split <;> split <;> (try rw [TwpExt, (recreate_frame _ t).2.2.2.2.2.2.1]) <;>
+        first | exact fun u hu => mem_addTwp hu | exact TwpExt.refl t s
+
+theorem setupExecute_twp (s : Sess) (t : Nat) : TwpExt t s (setupExecute s t).1 := by
+  unfold setupExecute
+  split
+  · exact TwpExt.refl t s
+  · split
+    · exact TwpExt.refl t s
+    · split
+      · exact TwpExt.refl t s
+      · exact TwpExt.refl t s
+      · exact collectProducts_twp s t
+
+theorem genExecute_twp (Y : YieldFn) (s : Sess) (tk : PTask) (t : Nat) : TwpExt t s (genExecute Y s tk).1 := by
+  unfold genExecute
+  simp only []
+  split
+  · exact TwpExt.of_eq rfl
+  · split
+    · exact TwpExt.of_eq rfl
+    · exact TwpExt.of_eq (by rw [(recreate_frame _ _).2.2.2.2.2.2.1]; rfl)
+
+theorem teardown_twp (s : Sess) (t : Nat) : TwpExt t s (teardown s t).1 := by
+  unfold teardown
+  split
+  · exact TwpExt.refl t s
+  · split
+    · exact TwpExt.refl t s
+    · simp only []
+      split
+      · exact collectProducts_twp s t
+      · split <;> exact collectProducts_twp s t
+
+theorem protocol_twp (Y : YieldFn) (F : BodyFn) (s : Sess) (t : Nat) : TwpExt t s (protocol Y F s t) := by
+  unfold protocol
+  refine TwpExt.trans ?_ (TwpExt.of_eq (reportChain_frame _ t _).2.2.2.2.2.2.1)
+  unfold runPhases
+  rw [setupChain_eval]
+  by_cases hfm : (setupProvisional s t).failMarks.contains t = true
+  · simp only [hfm, if_true]; exact setupProvisional_twp s t
+  · simp only [hfm, Bool.false_eq_true, if_false]
+    have h1 := (setupProvisional_twp s t).trans (setupExecute_twp (setupProvisional s t) t)
+    generalize setupExecute (setupProvisional s t) t = r2 at h1 ⊢
+    obtain ⟨s2, ra⟩ := r2
+    cases ra with
+    | none =>
+      simp only []
+      have h2 : TwpExt t s2 (execChain Y F t Generated.executeOrder s2).1 := by
+        rw [execChain_eval]
+        split
+        · exact TwpExt.refl t s2
+        · split
+          · exact genExecute_twp Y s2 _ t
+          · exact TwpExt.of_eq rfl
+      generalize execChain Y F t Generated.executeOrder s2 = r3 at h2 ⊢
+      obtain ⟨s3, b⟩ := r3
+      cases b with
+      | true => exact h1.trans h2
+      | false => exact (h1.trans h2).trans (teardown_twp s3 t)
+    | _ => exact h1
+
+theorem loop_twp {Y : YieldFn} {F : BodyFn} : ∀ (picks : List Nat) (s s' : Sess) (h : List Nat),
+    (∀ u ∈ s.twp, u ∈ h) → loop Y F s picks = .ok s' → ∀ u ∈ s'.twp, u ∈ h ++ picks
+  | [], s, s', h, hs, hl => by
+    simp only [loop, Except.ok.injEq] at hl; subst hl; simpa using hs
+  | t :: ts, s, s', h, hs, hl => by
+    obtain ⟨_, _, _, _, h5⟩ := loop_cons hl
+    have hstep : ∀ u ∈ (stepOf Y F s t).twp, u ∈ h ++ [t] := by
+      intro u hu
+      rcases protocol_twp Y F { s with so := s.so.take [tv t] } t u hu with h1 | h1
+      · exact List.mem_append.2 (Or.inl (hs u h1))
+      · simp [h1]
+    have := loop_twp ts _ s' (h ++ [t]) hstep h5
+    simpa [List.append_assoc] using this
+
+/-- The rows of task `t` are written by `t`'s own protocol only. -/
+theorem protocol_db_other (Y : YieldFn) (F : BodyFn) (s : Sess) (t' : Nat) (tk : PTask) (hf : findTask s.tasks t' = some tk)
+    (t : Nat) (hne : t ≠ t') (v : Nat) :
+    lookup (protocol Y F s t').w.db (tv t, v) = lookup s.w.db (tv t, v) := by
+  have hdb : (runPhases Y F s t').1.w.db = s.w.db := by
+    rcases runPhases_obs Y F s t' tk hf with h | h
+    · rw [h.2.2]
+    · exact h.2.2.1
+  unfold protocol
+  rw [reportChain_eval]
+  generalize runPhases Y F s t' = r at hdb
+  obtain ⟨s1, ra⟩ := r
+  simp only [] at hdb
+  cases ra <;> simp only [addReport] <;> (try rw [hdb])
+  -- the `.none` case
+  split
+  · rw [hdb]
+  · split
+    · simp only []
+      rw [(updateStates_spec _ _ _ _ _ (by assumption)).2 (tv t, v) (Or.inl (fun e => hne (tv_inj' e))), hdb]
+    · rw [hdb]
+
+theorem loop_db_other {Y : YieldFn} {F : BodyFn} (t v : Nat) : ∀ (picks : List Nat) (s s' : Sess),
+    loop Y F s picks = .ok s' → t ∉ picks → lookup s'.w.db (tv t, v) = lookup s.w.db (tv t, v)
+  | [], s, s', h, _ => by simp only [loop, Except.ok.injEq] at h; subst h; rfl
+  | p :: ps, s, s', h, hn => by
+    obtain ⟨_, _, _, h4, h5⟩ := loop_cons h
+    have hn' : t ≠ p ∧ t ∉ ps := by simpa using hn
+    rw [loop_db_other t v ps _ s' h5 hn'.2]
+    cases hf : findTask s.tasks p with
+    | none => rw [hf] at h4; cases h4
+    | some tk => exact protocol_db_other Y F { s with so := s.so.take [tv p] } p tk hf t hn'.1 v
+
+/-! ## Tasks without directory patterns (e.g. the copy tasks a generator defines): the protocol in normal form -/
+
+/-- The session after the body of a pattern-free task ran. -/
+def afterBody (F : BodyFn) (s : Sess) (K : PTask) : Sess :=
+  { invoke s K with w := { s.w with fs := (runBody F K s.w.fs).1 } }
+
+def failReport (s : Sess) (k : Nat) : Sess := { addReport s k .fail with failMarks := s.failMarks ++ taskDesc s.g k }
+
+/-- `pytask_execute_task_protocol` for a non-generator task without pattern arguments that is not registered in
+`TASKS_WITH_PROVISIONAL_NODES`: nothing is resolved, the DAG is not re-created. -/
+theorem protocol_plain (Y : YieldFn) (F : BodyFn) (s : Sess) (k : Nat) (K : PTask) (hf : findTask s.tasks k = some K)
+    (hng : K.gen = false) (hpd : K.pdeps = []) (hpp : K.pprods = []) (htw : k ∉ s.twp) :
+    protocol Y F s k =
+      (if k ∈ s.failMarks then addReport s k .skipPrevFailed
+       else match scanP (toProject s.tasks) s.g s.w (provNodes s.tasks) k false (neighbours s.g k) with
+        | .missing => failReport s k
+        | .unchanged => addReport s k .skipUnchanged
+        | .changed =>
+          if (runBody F K s.w.fs).2 = true ∨ K.allProds.any (fun p => (lookup (afterBody F s K).w.fs p).isNone) = true
+          then failReport (afterBody F s K) k
+          else
+            let u := updateStates (toProject s.tasks) s.g (afterBody F s K).w k (neighbours s.g k)
+            if u.2 then addReport { afterBody F s K with w := u.1 } k .success else { afterBody F s K with crashed := true }) := by
+  have hsp : setupProvisional s k = s := by
+    unfold setupProvisional
+    rw [hf]
+    simp [hpd, unresolved, htw]
+  have hcp : ∀ s' : Sess, findTask s'.tasks k = some K → s'.twp = s.twp → collectProducts s' k = s' := by
+    intro s' hf' htw'
+    unfold collectProducts
+    rw [hf']
+    have : k ∉ s'.twp := by rw [htw']; exact htw
+    simp [hpp, unresolved, this, hng]
+  have hisgen : ∀ s' : Sess, findTask s'.tasks k = some K → isGen s'.tasks k = false := by
+    intro s' hf'; unfold isGen; rw [hf']; exact hng
+  unfold protocol runPhases
+  rw [setupChain_eval, hsp]
+  by_cases hfm : k ∈ s.failMarks
+  · have : s.failMarks.contains k = true := by simpa using hfm
+    simp only [this, if_true, hfm]
+    rw [reportChain_eval]
+  · have : s.failMarks.contains k = false := by simpa using hfm
+    simp only [this, Bool.false_eq_true, if_false, hfm]
+    unfold setupExecute
+    rw [hf]
+    simp only [hng, Bool.false_eq_true, if_false]
+    cases hsc : scanP (toProject s.tasks) s.g s.w (provNodes s.tasks) k false (neighbours s.g k) with
+    | missing => simp only []; rw [reportChain_eval]; rfl
+    | unchanged => simp only []; rw [hcp s hf rfl, reportChain_eval]
+    | changed =>
+      simp only []
+      rw [execChain_eval, hf]
+      simp only [hng, Bool.false_eq_true, if_false]
+      have hab : ({ invoke s K with w := { s.w with fs := (runBody F K s.w.fs).1 } } : Sess) = afterBody F s K := rfl
+      rw [hab]
+      cases hb : (runBody F K s.w.fs).2 with
+      | true =>
+        simp only [true_or, if_true]
+        rw [reportChain_eval]; rfl
+      | false =>
+        simp only [Bool.false_eq_true, false_or]
+        have hf2 : findTask (afterBody F s K).tasks k = some K := hf
+        unfold teardown
+        rw [hf2]
+        simp only [hng, Bool.false_eq_true, if_false]
+        rw [hcp (afterBody F s K) hf2 rfl, hf2]
+        simp only []
+        by_cases hmiss : K.allProds.any (fun p => (lookup (afterBody F s K).w.fs p).isNone) = true
+        · simp only [hmiss, if_true]
+          rw [reportChain_eval]; rfl
+        · simp only [hmiss, Bool.false_eq_true, if_false]
+          rw [reportChain_eval]
+          simp only [hisgen _ hf2, Bool.false_eq_true, if_false]
+          rfl
+
+/-- The recorded state of vertex `v` for task `t` equals its current state. -/
+def RowOK (P : Project) (w : World) (t v : Nat) : Prop := ∃ h, stateOf P w v = some h ∧ lookup w.db (tv t, v) = some h
+
+theorem scanP_unchanged_of_rows (P : Project) (g : G) (w : World) (pn : List Nat) (t : Nat) :
+    ∀ vs, (∀ v ∈ vs, RowOK P w t v) → scanP P g w pn t false vs = Scan.unchanged
+  | [], _ => by simp [scanP]
+  | v :: vs, h => by
+    have ih := scanP_unchanged_of_rows P g w pn t vs (fun u hu => h u (List.mem_cons_of_mem _ hu))
+    obtain ⟨hh, h1, h2⟩ := h v (by simp)
+    unfold scanP
+    simp only [Bool.false_and, Bool.false_eq_true, if_false]
+    split
+    · exact ih
+    · have hc : hasChanged w t v (some hh) = false := by
+        unfold hasChanged; simp only [h2]; simp
+      simp only [h1, Option.isNone_some, Bool.and_false, Bool.false_eq_true, if_false, hc]
+      exact ih
+
+/-- Every declared dependency, the module and every declared product of `K` exist and have their current content recorded
+for `K` in the database. -/
+def Recorded (w : World) (K : PTask) : Prop :=
+  (∀ d ∈ K.allDeps, ∃ h, lookup w.fs d = some h ∧ lookup w.db (tv K.id, nv d) = some h) ∧
+  (∃ h, lookup w.fs K.src = some h ∧ lookup w.db (tv K.id, tv K.id) = some h) ∧
+  (∀ p ∈ K.allProds, ∃ h, lookup w.fs p = some h ∧ lookup w.db (tv K.id, nv p) = some h)
+
+theorem neighbours_rows {s : Sess} {m : List Nat} (hdag : createDag (toProject s.tasks) {} = .ok (s.g, m)) (k : Nat) (K : PTask)
+    (hf : findTask s.tasks k = some K) (huniq : ∀ u ∈ s.tasks, u.id = k → u = K) (hafter : K.after = [])
+    (w : World) (hrec : Recorded w K) : ∀ v ∈ neighbours s.g k, RowOK (toProject s.tasks) w k v := by
+  have hid : K.id = k := findTask_id hf
+  intro v hv
+  unfold neighbours at hv
+  simp only [List.mem_append, List.mem_singleton] at hv
+  rcases hv with (hv | rfl) | hv
+  · rcases (createDag_neighbours_conv hdag k).1 v hv with ⟨u, hu, huid, d, hd, rfl⟩ | ⟨u, hu, huid, ha⟩
+    · rw [huniq u hu huid] at hd
+      obtain ⟨h, e1, e2⟩ := hrec.1 d hd
+      exact ⟨h, by rw [stateOf_nv]; exact e1, by rw [← hid]; exact e2⟩
+    · rw [huniq u hu huid] at ha; exact absurd hafter ha
+  · obtain ⟨h, e1, e2⟩ := hrec.2.1
+    exact ⟨h, by rw [stateOf_tv _ hf]; exact e1, by rw [← hid]; exact e2⟩
+  · obtain ⟨u, hu, huid, p, hp, rfl⟩ := (createDag_neighbours_conv hdag k).2 v hv
+    rw [huniq u hu huid] at hp
+    obtain ⟨h, e1, e2⟩ := hrec.2.2 p hp
+    exact ⟨h, by rw [stateOf_nv]; exact e1, by rw [← hid]; exact e2⟩
+
+theorem list_ne_append_singleton {α} (l : List α) (a : α) : l ≠ l ++ [a] := by
+  intro h
+  have := congrArg List.length h
+  simp at this
+
+/-- **unchanged ⇒ skipped** for a pattern-free task: with everything recorded, the protocol only appends `SKIP_UNCHANGED`. -/
+theorem plain_skip (Y : YieldFn) (F : BodyFn) (s : Sess) (k : Nat) (K : PTask) (m : List Nat)
+    (hdag : createDag (toProject s.tasks) {} = .ok (s.g, m)) (hf : findTask s.tasks k = some K)
+    (hng : K.gen = false) (hpd : K.pdeps = []) (hpp : K.pprods = []) (htw : k ∉ s.twp) (hfm : k ∉ s.failMarks)
+    (huniq : ∀ u ∈ s.tasks, u.id = k → u = K) (hafter : K.after = []) (hrec : Recorded s.w K) :
+    protocol Y F s k = addReport s k .skipUnchanged := by
+  rw [protocol_plain Y F s k K hf hng hpd hpp htw]
+  simp only [hfm, if_false]
+  rw [scanP_unchanged_of_rows _ _ _ _ _ _ (neighbours_rows hdag k K hf huniq hafter s.w hrec)]
+
+/-- **success ⇒ recorded**: if the body of a pattern-free task ran, the task did not fail and nothing crashed, then all
+its dependencies, its module and its products exist and are recorded with their current contents. -/
+theorem plain_records (Y : YieldFn) (F : BodyFn) (s : Sess) (k : Nat) (K : PTask) (m : List Nat)
+    (hdag : createDag (toProject s.tasks) {} = .ok (s.g, m)) (hf : findTask s.tasks k = some K)
+    (hng : K.gen = false) (hpd : K.pdeps = []) (hpp : K.pprods = []) (htw : k ∉ s.twp)
+    (hlog : (protocol Y F s k).log = s.log ++ [k]) (hnf : (k, Outcome.fail) ∉ (protocol Y F s k).reports)
+    (hcr : (protocol Y F s k).crashed = false) : Recorded (protocol Y F s k).w K := by
+  have hid : K.id = k := findTask_id hf
+  rw [protocol_plain Y F s k K hf hng hpd hpp htw] at hlog hnf hcr ⊢
+  by_cases hfm : k ∈ s.failMarks
+  · simp only [hfm, if_true, addReport] at hlog
+    exact absurd hlog (list_ne_append_singleton _ _)
+  · simp only [hfm, if_false] at hlog hnf hcr ⊢
+    cases hsc : scanP (toProject s.tasks) s.g s.w (provNodes s.tasks) k false (neighbours s.g k) with
+    | missing => rw [hsc] at hlog; simp only [failReport, addReport] at hlog; exact absurd hlog (list_ne_append_singleton _ _)
+    | unchanged => rw [hsc] at hlog; simp only [addReport] at hlog; exact absurd hlog (list_ne_append_singleton _ _)
+    | changed =>
+      rw [hsc] at hnf hcr
+      simp only [] at hnf hcr ⊢
+      split at hnf
+      · exfalso; apply hnf; simp [failReport, addReport]
+      · rename_i hgood
+        rw [if_neg hgood] at hcr ⊢
+        cases hu : (updateStates (toProject s.tasks) s.g (afterBody F s K).w k (neighbours s.g k)).2 with
+        | false => rw [hu] at hcr; simp at hcr
+        | true =>
+          simp only [if_true, addReport]
+          have hspec := updateStates_spec (toProject s.tasks) s.g k (neighbours s.g k) (afterBody F s K).w hu
+          have hfs := updateStates_fs (toProject s.tasks) s.g k (neighbours s.g k) (afterBody F s K).w
+          have hKin := findTask_mem hf
+          have hcs := createDag_spec hdag K hKin
+          rw [hid] at hcs
+          refine ⟨fun d hd => ?_, ?_, fun p hp => ?_⟩
+          · have hv : nv d ∈ neighbours s.g k := by
+              unfold neighbours; simp [mem_preds.2 (hcs.2.1 d hd)]
+            obtain ⟨h, e1, e2⟩ := hspec.1 _ hv
+            rw [stateOf_nv] at e1
+            exact ⟨h, by rw [hfs]; exact e1, by rw [hid]; exact e2⟩
+          · have hv : tv k ∈ neighbours s.g k := by unfold neighbours; simp
+            obtain ⟨h, e1, e2⟩ := hspec.1 _ hv
+            rw [stateOf_tv _ hf] at e1
+            exact ⟨h, by rw [hfs]; exact e1, by rw [hid]; exact e2⟩
+          · have hv : nv p ∈ neighbours s.g k := by
+              unfold neighbours; simp [mem_succs.2 (hcs.2.2 p hp)]
+            obtain ⟨h, e1, e2⟩ := hspec.1 _ hv
+            rw [stateOf_nv] at e1
+            exact ⟨h, by rw [hfs]; exact e1, by rw [hid]; exact e2⟩
+
+/-- **changed ⇒ executed** for a pattern-free task: a declared dependency whose recorded state is absent or differs, and
+nothing missing. -/
+theorem plain_runs (Y : YieldFn) (F : BodyFn) (s : Sess) (k : Nat) (K : PTask) (m : List Nat)
+    (hdag : createDag (toProject s.tasks) {} = .ok (s.g, m)) (hf : findTask s.tasks k = some K)
+    (hng : K.gen = false) (hpd : K.pdeps = []) (hpp : K.pprods = []) (htw : k ∉ s.twp) (hfm : k ∉ s.failMarks)
+    (huniq : ∀ u ∈ s.tasks, u.id = k → u = K) (hafter : K.after = [])
+    (d : Nat) (hd : d ∈ K.allDeps) (hch : hasChanged s.w k (nv d) (lookup s.w.fs d) = true)
+    (hex : ∀ x ∈ K.allDeps, (lookup s.w.fs x).isSome = true) (hsrc : (lookup s.w.fs K.src).isSome = true) :
+    (protocol Y F s k).log = s.log ++ [k] := by
+  have hid : K.id = k := findTask_id hf
+  have hcs := createDag_spec hdag K (findTask_mem hf)
+  rw [hid] at hcs
+  have hpred : nv d ∈ s.g.preds (tv k) := mem_preds.2 (hcs.2.1 d hd)
+  have hne1 := scanP_changed (toProject s.tasks) s.g s.w (provNodes s.tasks) k (nv d) hpred
+    (by rw [stateOf_nv]; exact hch) (neighbours s.g k) false (by unfold neighbours; simp [hpred])
+  have hne2 := scanP_not_missing (toProject s.tasks) s.g s.w (provNodes s.tasks) k (neighbours s.g k) false (by
+    intro v _ hv
+    simp only [Bool.or_eq_true, List.contains_iff_mem, beq_iff_eq] at hv
+    rcases hv with hv | rfl
+    · rcases (createDag_neighbours_conv hdag k).1 v hv with ⟨u, hu, huid, x, hx, rfl⟩ | ⟨u, hu, huid, ha⟩
+      · rw [huniq u hu huid] at hx
+        rw [stateOf_nv]; exact hex x hx
+      · rw [huniq u hu huid] at ha; exact absurd hafter ha
+    · rw [stateOf_tv _ hf]; exact hsrc)
+  rw [protocol_plain Y F s k K hf hng hpd hpp htw]
+  simp only [hfm, if_false, scan_cases _ hne1 hne2]
+  split
+  · simp [failReport, addReport, afterBody, invoke, hid]
+  · split <;> simp [addReport, afterBody, invoke, hid]
+
+/-- Generators are executed in every build (by design: their states are never recorded, `needs_to_be_executed = … or
+is_task_generator(task)`): unless skipped because an ancestor failed, the generator function is called. -/
+theorem protocol_gen_log (Y : YieldFn) (F : BodyFn) (s : Sess) (g : Nat) (G : PTask) (hf : findTask s.tasks g = some G)
+    (hgen : G.gen = true) (hfm : g ∉ s.failMarks) : (protocol Y F s g).log = s.log ++ [g] := by
+  have hsp := setupProvisional_spec s g G hf
+  have hgen1 : (resolvedDeps s.w.fs G).gen = true := by unfold resolvedDeps; split <;> exact hgen
+  have hid : (resolvedDeps s.w.fs G).id = g := findTask_id hsp.2
+  generalize resolvedDeps s.w.fs G = G1 at hsp hgen1 hid
+  unfold protocol
+  rw [(reportChain_frame _ g _).2.2.2.2.1]
+  unfold runPhases
+  rw [setupChain_eval]
+  have hfm' : (setupProvisional s g).failMarks.contains g = false := by
+    rw [hsp.1.2.2.2.1]; simpa using hfm
+  simp only [hfm', Bool.false_eq_true, if_false]
+  have hse : setupExecute (setupProvisional s g) g = (setupProvisional s g, Raised.none) := by
+    unfold setupExecute; rw [hsp.2]; simp [hgen1]
+  rw [hse]
+  simp only []
+  rw [execChain_eval, hsp.2]
+  simp only [hgen1, if_true]
+  have hge := genExecute_obs Y (setupProvisional s g) G1
+  generalize genExecute Y (setupProvisional s g) G1 = r3 at hge ⊢
+  obtain ⟨s3, b⟩ := r3
+  cases b with
+  | true => simp only [] at hge ⊢; rw [hge.2.1, hid, hsp.1.2.1]
+  | false =>
+    simp only [] at hge ⊢
+    rw [(teardown_sameObs s3 g).2.1, hge.2.1, hid, hsp.1.2.1]
+
+/-- A task the loop hands out has not been handed out before. -/
+theorem pick_fresh {ts0 : List PTask} {s : Sess} {h : List Nat} {t : Nat} (hi : LInv ts0 s h) (hstop : s.stop = false)
+    (hl : LegalBatch s.so 1 [tv t]) : t ∉ h := by
+  intro hc
+  obtain ⟨f, _, hr⟩ := (hi.good hstop).reach
+  have hav := mem_avail.1 (hl.2.1 (tv t) (by simp))
+  exact (reach_inv hr).disj (tv t) hav.1 (by rw [hi.done]; exact List.mem_map.2 ⟨t, hc, rfl⟩)
+
+theorem initSess_twp {ts : List PTask} {w : World} {s0 : Sess} (h : initSess ts w = some s0) : s0.twp = [] := by
+  unfold initSess at h
+  split at h
+  · cases h
+  · split at h
+    · cases h
+    · cases h; rfl
+
 end Prov
 end Pytask
